@@ -165,8 +165,17 @@ impl Core {
                             Ok(a) => a,
                             Err(_) => return "err".to_string(),
                         };
+                        use wirefilter::GetType;
+                        let static_ty = ast.get_type();
                         let f = ast.compile();
                         match f.execute(ctx) {
+                            // the property: a value of the static type, or an absence tagged with it
+                            Ok(Ok(v)) if v.get_type() != static_ty => {
+                                format!("ok {} !static-type={}", val_str(&v), ty_str(&static_ty))
+                            }
+                            Ok(Err(t)) if t != static_ty => {
+                                format!("absent {} !static-type={}", ty_str(&t), ty_str(&static_ty))
+                            }
                             Ok(Ok(v)) => format!("ok {}", val_str(&v)),
                             Ok(Err(t)) => format!("absent {}", ty_str(&t)),
                             Err(_) => "exec-err".to_string(),
